@@ -721,6 +721,17 @@ func raceSupplement(scratch string, seed int64, secs int) raceResult {
 	}
 	ob, rerr := os.ReadFile(op)
 	if rerr != nil {
+		// the binary died: a data race report or the runtime's own "concurrent map" detector is a finding,
+		// anything else is infrastructure trouble
+		for _, marker := range []string{"WARNING: DATA RACE", "fatal error: concurrent map"} {
+			if i := strings.Index(text, marker); i >= 0 {
+				rep := text[i:]
+				if len(rep) > 6000 {
+					rep = rep[:6000]
+				}
+				return raceResult{summary: "the -race binary crashed: " + marker, report: rep}
+			}
+		}
 		tail := text
 		if len(tail) > 3000 {
 			tail = tail[len(tail)-3000:]
